@@ -183,6 +183,9 @@ def build_traces(path, tier, seed):
         x = x - np.mean(x)
         if i % 4 == 3:
             x = x + 5.0          # the mean dominates: the largest-amplitude bin is the zero-frequency bin (period 1/0)
+        if i % 5 == 1:
+            # records in extreme units: the amplitudes are ordinary doubles, their squares are not (2^-560 .. 2^520)
+            x = x * float(2.0 ** rng.choice([-560, -530, 505, 520]))
         o = eqsig.AccSignal(x, dt)
         # transform length: default, extra powers of two, explicit even / odd n (the dominant period is read off THAT grid)
         nsel = int(rng.integers(5))
